@@ -27,7 +27,7 @@ def instances(build, tier, seed):
         if 'SECOND' in i.defs:
             if i.defs['SECOND'] not in (10, 34, 39, 97, -1):
                 continue
-        elif fb % 3 and fb not in (9, 10, 11, 12, 32, 47, 34, 39, -1):
+        elif fb % 3 and fb not in (9, 10, 11, 12, 32, 47, 34, 39, 45, 46, 60, 62, -1):      # all white space, quotes, comments and the punctuators with look-ahead/pushback
             continue
         L.append(i)
     nn = 5 if tier == 'quick' else 7
